@@ -529,18 +529,20 @@ section Backends
 open QG.Lemmas.LayerSim QG.Lemmas.LayerBridge QG.Model.Backend QG.Lemmas.Backend
 open Classical
 
-/-- the layers of a pipeline run are in the domain of C01 -/
+/-- the layers of a pipeline run are in the domain of C01 (in particular there is at least one: the read-out layer) -/
 theorem layers_admissible (n : Nat) (hn : 0 < n) (data : List (Op ℝ)) (hwf : ∀ op ∈ data, LWF' n op)
     (st' : LayerState ℝ) (h : foldE (LayerState.step P) (LayerState.init P n) (callsLayered n data) = .ok st')
-    (hne : st'.mpList ≠ []) (ψ : Array ℂ) (hψ : ψ.size = 2 ^ n) :
+    (ψ : Array ℂ) (hψ : ψ.size = 2 ^ n) :
     QG.C01.Admissible n (layersL st') ψ := by
   have hl : ∀ op ∈ data, LWF n op := by
     intro op hop
     have := hwf op hop
     cases op <;> first | exact this | trivial
   obtain ⟨hrow, hend⟩ := rowOrdered_callsLayered n data hl
-  obtain ⟨b', _, hr, hs⟩ := run_sim P n _ (LayerState.init P n) st' (BinState.init P n) (rel_init P n hn) hrow h
+  obtain ⟨b', hb', hr, hs⟩ := run_sim P n _ (LayerState.init P n) st' (BinState.init P n) (rel_init P n hn) hrow h
   obtain ⟨hw, _⟩ := layers_bridge frameSys n st' b' hr (by rw [hs]; exact hend)
+  have hne : st'.mpList ≠ [] := mpList_ne_nil n st' b' hr (by rw [hs]; exact hend)
+    (bin_run_items P _ _ b' hb' (Or.inr (callsLayered_has_item n hn data)))
   refine ⟨hn, ?_, ?_, hψ⟩
   · simpa [layersL, layersOf] using hne
   · intro l hl
@@ -576,33 +578,62 @@ theorem noise_free_layers_spec (n : Nat) (hn : 0 < n) (data : List (Op ℝ)) (hw
 /-- … hence `StandardBackend.statevector` on the layers of a noise-free `StandardCircuit` -/
 theorem noise_free_standard_backend (n : Nat) (hn : 0 < n) (data : List (Op ℝ)) (hwf : ∀ op ∈ data, LWF' n op)
     (st' : LayerState ℝ) (h : foldE (LayerState.step P) (LayerState.init P n) (callsLayered n data) = .ok st')
-    (hne : st'.mpList ≠ []) (ψ : Array ℂ) (hψ : ψ.size = 2 ^ n) :
+    (ψ : Array ℂ) (hψ : ψ.size = 2 ^ n) :
     ∃ out, standard (dictOf ℂ) n (layersL st') ψ = .ok out ∧
       ∀ i < 2 ^ n, ‖vfn out i‖ = ‖flatOf (trueOps n (callsLayered n data) (vecOf ψ.toList)) i‖ :=
-  ⟨_, QG.C01.standard_spec n _ ψ (layers_admissible n hn data hwf st' h hne ψ hψ),
+  ⟨_, QG.C01.standard_spec n _ ψ (layers_admissible n hn data hwf st' h ψ hψ),
     fun i hi => noise_free_layers_spec n hn data hwf st' h ψ i hi⟩
 
 /-- … `EfficientBackend.statevector` (every chunk setting inside the code's own limit of contraction letters) on the layers
 of a noise-free `EfficientCircuit` -/
 theorem noise_free_efficient_backend (n mn op : Nat) (hn : 0 < n) (data : List (Op ℝ)) (hwf : ∀ op ∈ data, LWF' n op)
     (st' : LayerState ℝ) (h : foldE (LayerState.step P) (LayerState.init P n) (callsLayered n data) = .ok st')
-    (hne : st'.mpList ≠ []) (ψ : Array ℂ) (hψ : ψ.size = 2 ^ n)
+    (ψ : Array ℂ) (hψ : ψ.size = 2 ^ n)
     (hop : 1 ≤ op) (hlegs : n < 4 ∨ n < 2 * op ∨ numOperands n mn op ≤ 13) :
     ∃ out, efficient (dictOf ℂ) n mn op (layersL st') ψ = .ok out ∧
       ∀ i < 2 ^ n, ‖vfn out i‖ = ‖flatOf (trueOps n (callsLayered n data) (vecOf ψ.toList)) i‖ :=
-  ⟨_, QG.C01.efficient_spec n mn op _ ψ (layers_admissible n hn data hwf st' h hne ψ hψ) hop hlegs,
+  ⟨_, QG.C01.efficient_spec n mn op _ ψ (layers_admissible n hn data hwf st' h ψ hψ) hop hlegs,
     fun i hi => noise_free_layers_spec n hn data hwf st' h ψ i hi⟩
 
 /-- … and `BackendForOnes.statevector` (at most 26 matrices per layer, the code's own assertion) on the layers of a
 noise-free `OneCircuit` -/
 theorem noise_free_ones_backend (n : Nat) (hn : 0 < n) (data : List (Op ℝ)) (hwf : ∀ op ∈ data, LWF' n op)
     (st' : LayerState ℝ) (h : foldE (LayerState.step P) (LayerState.init P n) (callsLayered n data) = .ok st')
-    (hne : st'.mpList ≠ []) (ψ : Array ℂ) (hψ : ψ.size = 2 ^ n)
+    (ψ : Array ℂ) (hψ : ψ.size = 2 ^ n)
     (hlegs : ∀ l ∈ layersL st', QG.C01.numMats l ≤ 26) :
     ∃ out, ones (dictOf ℂ) n (layersL st') ψ = .ok out ∧
       ∀ i < 2 ^ n, ‖vfn out i‖ = ‖flatOf (trueOps n (callsLayered n data) (vecOf ψ.toList)) i‖ :=
-  ⟨_, QG.C01.ones_spec n _ ψ (layers_admissible n hn data hwf st' h hne ψ hψ) hlegs,
+  ⟨_, QG.C01.ones_spec n _ ψ (layers_admissible n hn data hwf st' h ψ hψ) hlegs,
     fun i hi => noise_free_layers_spec n hn data hwf st' h ψ i hi⟩
+
+/-- **the layered branch returns normally on its domain**: for every preprocessed native circuit whose rows are in range
+and whose two-qubit gates act on adjacent rows, building the layered circuit object raises nothing (the model raises
+`IndexError` exactly where the code does) -/
+theorem layered_pipeline_runs (n : Nat) (data : List (Op ℝ)) (hwf : ∀ op ∈ data, LWF' n op) :
+    ∃ st', foldE (LayerState.step P) (LayerState.init P n) (callsLayered n data) = .ok st' := by
+  obtain ⟨st', h, _⟩ := layer_run_ok P n _ (wf_callsLayered n data hwf) _ (init_sized P n)
+  exact ⟨st', h⟩
+
+/-- **C03 end to end for `StandardCircuit` + `StandardBackend`, no hypothesis beyond the domain**: the object is built
+without error, the backend returns a vector, and the vector has the ideal moduli -/
+theorem noise_free_standard_end_to_end (n : Nat) (hn : 0 < n) (data : List (Op ℝ)) (hwf : ∀ op ∈ data, LWF' n op)
+    (ψ : Array ℂ) (hψ : ψ.size = 2 ^ n) :
+    ∃ st' out, foldE (LayerState.step P) (LayerState.init P n) (callsLayered n data) = .ok st' ∧
+      standard (dictOf ℂ) n (layersL st') ψ = .ok out ∧
+      ∀ i < 2 ^ n, ‖vfn out i‖ = ‖flatOf (trueOps n (callsLayered n data) (vecOf ψ.toList)) i‖ := by
+  obtain ⟨st', h⟩ := layered_pipeline_runs n data hwf
+  obtain ⟨out, h1, h2⟩ := noise_free_standard_backend n hn data hwf st' h ψ hψ
+  exact ⟨st', out, h, h1, h2⟩
+
+/-- … and for `EfficientCircuit` + `EfficientBackend` (inside the code's own limit of contraction letters) -/
+theorem noise_free_efficient_end_to_end (n mn op : Nat) (hn : 0 < n) (data : List (Op ℝ)) (hwf : ∀ op ∈ data, LWF' n op)
+    (ψ : Array ℂ) (hψ : ψ.size = 2 ^ n) (hop : 1 ≤ op) (hlegs : n < 4 ∨ n < 2 * op ∨ numOperands n mn op ≤ 13) :
+    ∃ st' out, foldE (LayerState.step P) (LayerState.init P n) (callsLayered n data) = .ok st' ∧
+      efficient (dictOf ℂ) n mn op (layersL st') ψ = .ok out ∧
+      ∀ i < 2 ^ n, ‖vfn out i‖ = ‖flatOf (trueOps n (callsLayered n data) (vecOf ψ.toList)) i‖ := by
+  obtain ⟨st', h⟩ := layered_pipeline_runs n data hwf
+  obtain ⟨out, h1, h2⟩ := noise_free_efficient_backend n mn op hn data hwf st' h ψ hψ hop hlegs
+  exact ⟨st', out, h, h1, h2⟩
 
 end Backends
 
